@@ -338,6 +338,10 @@ func RunSession(st *simdisk.State, cfg Config, ops []Op, so SessionOpts) *Sessio
 			if err := sys.W.Close(); err != nil {
 				r.Viol = append(r.Viol, Violation{Prop: so.CmpProp, Msg: "Close: " + err.Error()})
 			}
+			vsched.Quiesce()
+			if sys.Disk != nil && sys.Disk.OpenHandles != 0 {
+				r.Viol = append(r.Viol, Violation{Prop: "C14", Msg: fmt.Sprintf("%d file handles still open after Close returned (no call in flight)", sys.Disk.OpenHandles)})
+			}
 		} else if sys.W != nil {
 			sys.W.Close()
 		}
